@@ -62,6 +62,13 @@ def ring_stereo_family():
                 out.append('[C%sH]1(C)C[C%sH](C)C[C%sH](C)C1' % (m1, m2, m3))
     for pattern in (('@', '@') * 3, ('@', '@@') * 3, ('@@', '@', '@', '@', '@@', '@'), ('@',) * 6):
         out.append('[C%sH]1(O)' % pattern[0] + ''.join('[C%sH](O)' % x for x in pattern[1:]) + '1')
+    # chiral spiro centres (one atom closing/opening two rings) and ring-fusion centres carrying two closure digits
+    for mk_ in marks:
+        for r1, r2 in (('CO', 'CN'), ('CCO', 'CN'), ('CCO', 'CCN'), ('CCCO', 'CCCN'), ('CCCO', 'CCN')):
+            out.append('[C%s]12(%s1)%s2' % (mk_, r1, r2))
+            out.append('C[C%s]1(%s1)N' % (mk_, r1))
+        out.append('C[C%s]12CCCC[C@H]2CC1' % mk_)
+        out.append('O[C%s]12CCC[C@@H]1CNC2' % mk_)
     # double bonds: equivalent E/Z pairs
     out += ['C/C=C/CC/C=C/C', 'C/C=C/CC/C=C\\C', 'C/C=C\\CC/C=C\\C', 'C/C=C/C=C/C', 'C/C=C/C=C\\C', 'C/C=C\\C=C/C',
             'C[C@H](O)CC[C@H](O)C', 'C[C@H](O)CC[C@@H](O)C', 'C[C@H](O)[C@H](O)C', 'C[C@H](O)[C@@H](O)C', 'C[C@H](N)C(=O)O', 'CC=C=CC',
